@@ -137,7 +137,7 @@ func extraC03(r *Run) {
 	for _, tp := range tps {
 		for i := 0; i < r.Budget(40, 1500); i++ {
 			kind := []string{"unary", "sstream", "cstream", "bidi"}[i%4]
-			edge := i%10 == 9 // values with leading/trailing spaces (printable ASCII, known HTTP finding)
+			edge := (i/4)%5 == 4 // values with leading/trailing spaces (printable ASCII, known HTTP finding), every kind
 			reqMD, hdrMD, tlrMD := randMD(rng, edge), randMD(rng, edge), randMD(rng, edge)
 			fail := rng.Chance(25)
 			var seen metadata.MD
